@@ -34,17 +34,21 @@ LEVEL_NOTE = "Trusted: the harness's reference model of which frames exist after
 
 DATASETS = ("psi", "mu", "supercurrent", "normal_current", "induced_vector_potential")
 PRE = [[], ["out.h5"], ["out.h5", "out-1.h5"], ["out-1.h5"], ["out.h5.tmp"], ["out.h5", "out.h5.tmp"],
-       ["out.h5.tmp", "out-1.h5"], ["out.h5", "out-1.h5.tmp", "out-2.h5"]]
+       ["out.h5.tmp", "out-1.h5"], ["out.h5", "out-1.h5.tmp", "out-2.h5"], ["out.h5.tmp", "out-1.h5", "out-2.h5"],
+       ["out.h5", "out-1.h5", "out-2.h5"]]
 
 
 def budget(tier):
     if tier == "quick":
-        return dict(max_examples=0, workers=8, time_s=170, min_cases=300)
-    return dict(max_examples=0, workers=16, time_s=1200, min_cases=600)
+        return dict(max_examples=0, workers=8, time_s=170, min_cases=900)
+    return dict(max_examples=0, workers=16, time_s=1200, min_cases=1800)
 
 
 def grid(tier):
-    nmax = 5 if tier == "quick" else 8
+    quick = tier == "quick"
+    nmax = 5 if quick else 10
+    # every injection point is combined with 3 (quick) or all (thorough) layouts of pre-existing files
+    nvar = 3 if quick else len(PRE)
     cases = []
     idx = 0
     for N in range(1, nmax + 1):
@@ -56,9 +60,11 @@ def grid(tier):
                 for where, at in points:
                     for exc in ("RuntimeError", "KeyboardInterrupt"):
                         idx += 1
-                        cases.append(dict(N=N, k=k, T=T, where=where, at=at, exc=exc,
-                                          output="none" if idx % 5 == 0 else "file", pre=PRE[idx % len(PRE)],
-                                          pause=(idx % 3 == 0), probes=2 if idx % 2 else 0))
+                        for v in range(nvar):
+                            j = idx + v
+                            cases.append(dict(N=N, k=k, T=T, where=where, at=at, exc=exc,
+                                              output="none" if j % 5 == 0 else "file", pre=PRE[(idx + 3 * v) % len(PRE)] if quick else PRE[v],
+                                              pause=(j % 3 == 0), probes=2 if j % 2 else 0))
     return cases
 
 
